@@ -30,6 +30,8 @@ structure GrowOk (b : Buf) (n : Nat) (b' : Buf) : Prop where
   fits : b.offset + n ≤ b'.curSz
   mono : b.curSz ≤ b'.curSz
   bound : b'.curSz ≤ b.curSz + b.curSz + n
+  /-- it grows only when the request does not fit strictly -/
+  tight : b'.curSz = b.curSz ∨ b.curSz ≤ b.offset + n
   noMax : ¬ (0 < b.maxSz ∧ b.maxSz < b.offset + n)
   wf : WF b'
 
@@ -81,7 +83,7 @@ theorem grow_spec (b : Buf) (n : Nat) (h : WF b) (hr : b.curSz + b.curSz + n + n
     rw [if_neg hc]
     by_cases hf : b.offset + n < b.curSz
     · rw [if_pos hf]
-      exact ⟨b, rfl, ⟨rfl, rfl, rfl, rfl, rfl, by omega, by omega, by omega, hc, h⟩⟩
+      exact ⟨b, rfl, ⟨rfl, rfl, rfl, rfl, rfl, by omega, by omega, by omega, Or.inl rfl, hc, h⟩⟩
     · rw [if_neg hf]
       cases hm : b.mode with
       | calloc =>
@@ -89,21 +91,21 @@ theorem grow_spec (b : Buf) (n : Nat) (h : WF b) (hr : b.curSz + b.curSz + n + n
         by_cases ha : 0 < b.autoMmapAfter ∧ b.autoMmapAfter < growSizeNat b.curSz n
         · rw [if_pos ha]
           simp only [hgs, hoff, if_true, htake]
-          refine ⟨_, rfl, ⟨rfl, rfl, rfl, rfl, rfl, ?_, ?_, ?_, hc, ?_⟩⟩
+          refine ⟨_, rfl, ⟨rfl, rfl, rfl, rfl, rfl, ?_, ?_, ?_, Or.inr (by omega), hc, ?_⟩⟩
           · simp only; omega
           · simp only; omega
           · simp only; omega
           · exact ⟨h.len, h.pad, by simp only; omega, by simp only; omega, h3, h4⟩
         · rw [if_neg ha]
           simp only [hgs, hoff, if_true, htake]
-          refine ⟨_, rfl, ⟨rfl, rfl, rfl, rfl, rfl, ?_, ?_, ?_, hc, ?_⟩⟩
+          refine ⟨_, rfl, ⟨rfl, rfl, rfl, rfl, rfl, ?_, ?_, ?_, Or.inr (by omega), hc, ?_⟩⟩
           · simp only; omega
           · simp only; omega
           · simp only; omega
           · exact ⟨h.len, h.pad, by simp only; omega, by simp only; omega, h3, h4⟩
       | mmap =>
         simp only [hgs]
-        refine ⟨_, rfl, ⟨rfl, rfl, rfl, rfl, rfl, ?_, ?_, ?_, hc, ?_⟩⟩
+        refine ⟨_, rfl, ⟨rfl, rfl, rfl, rfl, rfl, ?_, ?_, ?_, Or.inr (by omega), hc, ?_⟩⟩
         · simp only; omega
         · simp only; omega
         · simp only; omega
@@ -118,6 +120,8 @@ structure AppendOk (b : Buf) (p : Bytes) (b' : Buf) : Prop where
   auto : b'.autoMmapAfter = b.autoMmapAfter
   mono : b.curSz ≤ b'.curSz
   bound : b'.curSz ≤ 8 * b.curSz + 8 * p.length + 64
+  /-- the capacity stays within three times what has been asked for -/
+  tight : b'.curSz ≤ max b.curSz (3 * (b.offset + p.length))
   noMax : ¬ (0 < b.maxSz ∧ b.maxSz < b.offset + p.length)
   wf : WF b'
 
@@ -125,7 +129,8 @@ theorem appendOk_of_growOk {b b1 : Buf} {p : Bytes} (g : GrowOk b p.length b1) :
     AppendOk b p { b1 with offset := b1.offset + p.length, data := b1.data ++ p } := by
   have w1 := g.wf
   refine ⟨by simp only [g.data], by simp only [g.offset], g.padding, g.maxSz, g.auto, g.mono,
-    by have := g.bound; simp only; omega, g.noMax, ?_⟩
+    by have := g.bound; simp only; omega,
+    by have := g.bound; have := g.tight; simp only; omega, g.noMax, ?_⟩
   refine ⟨?_, ?_, ?_, w1.curSmall, w1.maxSmall, w1.autoSmall⟩
   · simp only [List.length_append, w1.len]
   · simp only; have := w1.pad; omega
@@ -204,7 +209,7 @@ theorem sliceAllocate_spec (b : Buf) (p : Bytes) (h : WF b) (hr : Room b (8 + p.
         refine ⟨b3, ?_, ?_⟩
         · rw [a2.offset, g1.offset, be64_length]
         · have o2 := a2.offset; rw [be64_length, g1.offset] at o2
-          refine ⟨?_, ?_, ?_, ?_, ?_, ?_, ?_, ?_, a3.wf⟩
+          refine ⟨?_, ?_, ?_, ?_, ?_, ?_, ?_, ?_, ?_, a3.wf⟩
           · rw [a3.data, a2.data, g1.data]; unfold enc; simp
           · rw [a3.offset, o2, enc_length]; omega
           · rw [a3.padding, a2.padding, g1.padding]
@@ -212,6 +217,12 @@ theorem sliceAllocate_spec (b : Buf) (p : Bytes) (h : WF b) (hr : Room b (8 + p.
           · rw [a3.auto, a2.auto, g1.auto]
           · have := a3.mono; have := a2.mono; have := g1.mono; omega
           · rw [enc_length]; omega
+          · have t1 := g1.tight; have b1' := g1.bound
+            have t2 := a2.tight; have t3 := a3.tight
+            rw [be64_length, g1.offset] at t2
+            rw [o2] at t3
+            rw [enc_length]
+            omega
           · rw [enc_length]; exact g1.noMax
 
 end RV.Buffer
